@@ -286,6 +286,14 @@ func runServerCaseV(c caseID, variant string) (res caseResult) {
 				}
 			case kT:
 				cT.sock.Emit(evName(i), arg)
+			case kR1xS:
+				if sConnected {
+					cS.sock.To("r1").Emit(evName(i), arg)
+				} else {
+					nsp.To("r1").Except(sio.Room(spS.SID)).Emit(evName(i), arg)
+				}
+			case kR12xT:
+				cT.sock.To("r1", "r2").Emit(evName(i), arg)
 			case kAck:
 				if sConnected {
 					cS.sock.Emit(evName(i), arg, func() {})
